@@ -219,12 +219,17 @@ impl<'source, Token: Logos<'source>> Lexer<'source, Token> {
     /// Panics if adding `n` to current offset would place the `Lexer` beyond the last byte,
     /// or in the middle of an UTF-8 code point (does not apply when lexing raw `&[u8]`).
     pub fn bump(&mut self, n: usize) {
-        self.token_end += n;
+        // Validate the new end before storing it: the addition must not wrap, and a
+        // failed bump must leave the lexer untouched (it may be caught and reused).
+        let token_end = self
+            .token_end
+            .checked_add(n)
+            .filter(|&end| self.source.is_boundary(end));
 
-        assert!(
-            self.source.is_boundary(self.token_end),
-            "Invalid Lexer bump",
-        )
+        match token_end {
+            Some(token_end) => self.token_end = token_end,
+            None => panic!("Invalid Lexer bump"),
+        }
     }
 }
 
